@@ -6,6 +6,7 @@ import (
 	"bytes"
 	"reflect"
 	"strings"
+	"text/scanner"
 	"unicode/utf8"
 
 	"github.com/alecthomas/participle/v2/lexer"
@@ -334,6 +335,36 @@ func vhRunePos(in string, off int) (line, col int) {
 	return
 }
 
+// VH_C06_BytesMB: an elided token that spans a line break and continues with
+// multi-byte characters, then arbitrary bytes: the error is located by
+// characters, not bytes.
+func VH_C06_BytesMB() {
+	def := lexer.MustSimple([]lexer.SimpleRule{{Name: "Ident", Pattern: `[a-z]+`}, {Name: "Num", Pattern: `[0-9]+`}, {Name: "ws", Pattern: `[ \né→]+`}})
+	prefixes := []string{"a\né", " \n→é", "\n"}
+	in := prefixes[vChoose("prefix", len(prefixes))] + vString("in", vChoose("len", 3))
+	fn := "file.txt"
+	p, berr := Build[vgWords](Lexer(def))
+	vAssert(berr == nil, "catalogue grammar must build")
+	ast, err := p.ParseString(fn, in)
+	if err == nil {
+		vAssert(ast != nil, "C06: nil AST with nil error")
+		vReach("ok")
+		return
+	}
+	perr, ok := err.(interface {
+		Position() lexer.Position
+		Message() string
+	})
+	vAssert(ok, "C06: error without Position()/Message()")
+	pos := perr.Position()
+	vAssert(pos.Filename == fn, "C06: error position does not carry the supplied filename")
+	vAssert(pos.Offset >= 0 && pos.Offset <= len(in), "C06: error offset outside the input")
+	line, col := vhRunePos(in, pos.Offset)
+	vAssert(pos.Line == line && pos.Column == col, "C06: error line/column inconsistent with its offset")
+	vAssert(err.Error() == vhSpecError(pos, perr.Message()), "C06: Error() is not [file:]line:col: message")
+	vReach("error")
+}
+
 // VH_C06_Unquote: a parser built with Unquote on a token type whose tokens can
 // be as short as one byte (nothing obliges a lexer to hand Unquote only
 // well-formed literals): a value or a located error, never a panic.
@@ -443,6 +474,40 @@ func VH_C15_RoutingDefault() {
 	}
 	same(a1, a2, "C15: ParseString vs ParseBytes (default lexer)")
 	same(a1, a3, "C15: ParseString vs Parse (default lexer)")
+	if e1 == nil {
+		vReach("parsed")
+	} else {
+		vReach("failed")
+	}
+}
+
+// a text/scanner definition with a configuration callback (comments are
+// tokens): every entry point must use the configured scanner
+type vgScanComments struct {
+	Words []string `( @Ident | @Comment | @Int | @( "+" | "-" | "." | "/" | "*" ) )*`
+}
+
+func VH_C15_RoutingConfigured() {
+	in := vhScanInput()
+	def := lexer.NewTextScannerLexer(func(s *scanner.Scanner) { s.Mode &^= scanner.SkipComments })
+	p, err := Build[vgScanComments](Lexer(def))
+	vAssert(err == nil, "catalogue grammar must build")
+	a1, e1 := p.ParseString("f", in)
+	a2, e2 := p.ParseBytes("f", []byte(in))
+	a3, e3 := p.Parse("f", strings.NewReader(in))
+	vhSameError(e3, e1, "C15: Parse vs ParseString (configured text/scanner lexer)")
+	vhSameError(e3, e2, "C15: Parse vs ParseBytes (configured text/scanner lexer)")
+	same := func(x, y *vgScanComments, tag string) {
+		vAssert((x == nil) == (y == nil), tag+": nil-ness of the AST differs")
+		if x != nil {
+			vAssert(len(x.Words) == len(y.Words), tag+": ASTs differ")
+			for i := range x.Words {
+				vAssert(x.Words[i] == y.Words[i], tag+": ASTs differ")
+			}
+		}
+	}
+	same(a3, a1, "C15: Parse vs ParseString (configured text/scanner lexer)")
+	same(a3, a2, "C15: Parse vs ParseBytes (configured text/scanner lexer)")
 	if e1 == nil {
 		vReach("parsed")
 	} else {
